@@ -1166,19 +1166,15 @@ fn threaded(w: Arc<World>, spec: &CaseSpec) -> Threaded {
             Err(mpsc::RecvTimeoutError::Disconnected) => break,
         }
     }
-    let mut panicked = false;
     for h in handles {
-        if h.join().is_err() {
-            panicked = true;
-        }
+        // a thread that died outside an operation sent nothing: its missing results are reported by
+        // the caller as `panic-thread`
+        let _ = h.join();
     }
     let end = probe();
     let leaked = weak.map(|w| w.upgrade().is_some()).unwrap_or(false);
     let all: Vec<Vec<Slot>> = got.into_iter().map(|g| g.unwrap_or_default()).collect();
-    if panicked {
-        // a thread died outside an operation (harness invariant) — reported by the caller
-    }
-    Threaded::Done(all, base, end, leaked || panicked && false)
+    Threaded::Done(all, base, end, leaked)
 }
 
 fn kind_name(k: &OpKind) -> String {
@@ -1306,8 +1302,8 @@ fn run_case(ctx: &mut Ctx, spec: &CaseSpec, flavour: &str, expect: Option<&[(u64
     }
     outp.push(if all_same { "solo=ok".into() } else { "solo=DIFF".into() });
     ctx.op(&line, &outp.join(" "));
-    ctx.count(&format!("reach:{mode}:{}", spec.n));
-    ctx.count(&format!("reach:{flavour}:{}", spec.n));
+    ctx.count(&format!("cases:{mode}:{}", spec.n));
+    ctx.count(&format!("cases:{flavour}:{}", spec.n));
     if ctx.want_sample() && nontrivial && line.len() < 1500 {
         ctx.sample(&format!("{} -> {}", line, outp.join(" ")));
     }
